@@ -315,7 +315,17 @@ func GenDAG(t *rapid.T, epoch uint32, ids []idx.ValidatorID, weights []pos.Weigh
 func GenOrder(t *rapid.T, ref *graphref.Ref, label string) []int {
 	n := len(ref.Evs)
 	prio := make([]int, n)
-	switch rapid.IntRange(0, 3).Draw(t, label+".orderKind") {
+	switch rapid.IntRange(0, 5).Draw(t, label+".orderKind") {
+	case 4, 5:
+		// hold back one validator: its events arrive as late as the parents-first rule allows, so that
+		// the events depending on them (and the decisions they enable) come in one burst
+		held := rapid.IntRange(0, len(ref.IDs)-1).Draw(t, label+".heldBack")
+		for i, e := range ref.Evs {
+			prio[i] = i
+			if e.Creator == held {
+				prio[i] = 2*n + i
+			}
+		}
 	case 0:
 		// reverse-ish: later events first whenever possible
 		for i := range prio {
